@@ -13,6 +13,7 @@ import DimModel.Props.C12
 import DimModel.Props.C17
 import DimModel.Proofs.C16
 import DimModel.Proofs.C16Ds
+import DimModel.Proofs.C16More
 namespace DimModel
 open Lib
 
@@ -622,6 +623,175 @@ open DSV in
 theorem takeDs_attrs {α : Type} (ds r : Ds α) (name : String) (ix : Ix) (cfg : IndexCfg) (h : takeDs ds name ix cfg = .ok r) :
     r.attrs = ds.attrs ∧ ∀ kv ∈ r.vars, ∃ kv0 ∈ ds.vars, kv.2.attrs = kv0.2.attrs := C16.takeDs_spec ds r name ix cfg h
 
+
+/-! ### mirror functions added later (`Lib/Reduce`, `Lib/DatasetOps2`, `Lib/DatasetOps3`, `Lib/Missing2`) -/
+
+/-- `_unary_op` (`-a`, `abs(a)`, `~a`): the array metadata is DROPPED (`_constructor(func(values), axes)`) ... -/
+theorem unaryOp_attrs {α : Type} (u : α → α) (a : DimArray α) : (unaryOp u a).attrs = [] := rfl
+
+/-- ... and the axes (with their metadata) are the array's own -/
+theorem unaryOp_axis_attrs {α : Type} (u : α → α) (a : DimArray α) : (unaryOp u a).axes = a.axes := rfl
+
+/-- the exception is needed: an array with metadata loses it -/
+theorem unaryOp_attrs_counterexample : (unaryOp (fun x => x) exArr).attrs = [] ∧
+    ¬ ∀ (a : DimArray Nat), (unaryOp (fun x => x) a).attrs = a.attrs := by
+  refine ⟨rfl, fun h => ?_⟩
+  have := h { exArr with attrs := [("title", 5)] }
+  exact absurd this (by decide)
+
+/-- reductions on concrete data (`a.sum(axis)`, `a.nanmean(axis)`, ... with NumPy's refusals): metadata kept -/
+theorem reduceX_attrs (f : List XVal → Except Err XVal) (a r : DimArray XVal) (ax : AxisArg)
+    (h : reduceX f a ax = .ok (.inr r)) : r.attrs = a.attrs :=
+  reduceAxis_attrs (totalize f) a r ax (C16.reduceX_ok f a ax _ h)
+
+theorem reduceX_axis_attrs (f : List XVal → Except Err XVal) (a r : DimArray XVal) (ax : AxisArg)
+    (h : reduceX f a ax = .ok (.inr r)) :
+    (∀ x ∈ r.axes, x ∈ a.axes) ∧ ((a.axes.map (·.name)).Nodup → AxisAttrsKept a.axes r.axes) ∧
+    (∀ k, ax = .one k → ∃ pos, pos < a.axes.length ∧ r.axes = a.axes.eraseIdx pos) :=
+  reduceAxis_axis_attrs (totalize f) a r ax (C16.reduceX_ok f a ax _ h)
+
+/-- `sort_axis(axis, key=)`: array metadata kept, every axis keeps name and metadata -/
+theorem sortAxisKey_attrs {α : Type} (a r : DimArray α) (axis : DimKey) (key : Label → Except Err Label)
+    (h : sortAxisKey a axis key = .ok r) : r.attrs = a.attrs := by
+  obtain ⟨pos, ps, rfl⟩ := C16.sortAxisKey_ok a r axis key h
+  rfl
+
+theorem sortAxisKey_axis_attrs {α : Type} (a r : DimArray α) (axis : DimKey) (key : Label → Except Err Label)
+    (h : sortAxisKey a axis key = .ok r) :
+    axisMeta r.axes = axisMeta a.axes ∧ ((a.axes.map (·.name)).Nodup → AxisAttrsKept a.axes r.axes) := by
+  obtain ⟨pos, ps, rfl⟩ := C16.sortAxisKey_ok a r axis key h
+  exact takeAxisPos_axis_attrs a pos ps
+
+/-- `take_axis(indices, axis, indexing='position', mode=)`: array metadata kept, every axis keeps name and metadata -/
+theorem takeAxisInts_attrs {α : Type} (a r : DimArray α) (k : DimKey) (is : List Int) (mode : TakeMode)
+    (h : takeAxisInts a k is mode = .ok r) : r.attrs = a.attrs := by
+  obtain ⟨pos, ps, rfl⟩ := C16.takeAxisInts_ok a r k is mode h
+  rfl
+
+theorem takeAxisInts_axis_attrs {α : Type} (a r : DimArray α) (k : DimKey) (is : List Int) (mode : TakeMode)
+    (h : takeAxisInts a k is mode = .ok r) :
+    axisMeta r.axes = axisMeta a.axes ∧ ((a.axes.map (·.name)).Nodup → AxisAttrsKept a.axes r.axes) := by
+  obtain ⟨pos, ps, rfl⟩ := C16.takeAxisInts_ok a r k is mode h
+  exact takeAxisPos_axis_attrs a pos ps
+
+/-- N-d boolean `compress`: array metadata kept, whether the result is an array (rank 1) or has the axis of
+label tuples (rank ≠ 1) -/
+theorem compressNd_attrs {α : Type} (a : DimArray α) (mask : NDArr Bool) :
+    (∀ r, compressNd a mask = .ok (.inl r) → r.attrs = a.attrs) ∧
+    (∀ t, compressNd a mask = .ok (.inr t) → t.attrs = a.attrs) := by
+  constructor
+  · intro r h
+    unfold compressNd at h
+    split at h
+    · cases h
+    · split at h
+      · cases h
+      · split at h
+        · cases hc : compressAxis a ((List.range (mask.shape.getD 0 0)).map fun i => mask.get [i]) (.pos 0) with
+          | error e => rw [hc] at h; cases h
+          | ok r' =>
+            rw [hc] at h
+            simp only [Except.map, Except.ok.injEq, Sum.inl.injEq] at h
+            subst h
+            exact compressAxis_attrs a r' _ _ hc
+        · cases h
+  · intro t h
+    unfold compressNd at h
+    split at h
+    · cases h
+    · split at h
+      · cases h
+      · split at h
+        · cases hc : compressAxis a ((List.range (mask.shape.getD 0 0)).map fun i => mask.get [i]) (.pos 0) with
+          | error e => rw [hc] at h; cases h
+          | ok r' => rw [hc] at h; cases h
+        · simp only [Except.ok.injEq, Sum.inr.injEq] at h
+          subst h
+          rfl
+
+/-- N-d boolean `compress`, axes: rank 1 keeps the axis' name and metadata (`compress_axis`); for any other rank the
+result has ONE fresh axis of label tuples named after all dimensions - the axis metadata of the input is DROPPED
+(`TupleArr` has no field for it: `getaxes_broadcast` builds `Axis(tuples, ",".join(dims))`) -/
+theorem compressNd_axis_attrs {α : Type} (a : DimArray α) (mask : NDArr Bool) :
+    (∀ r, compressNd a mask = .ok (.inl r) →
+      a.ndim = 1 ∧ axisMeta r.axes = axisMeta a.axes ∧ ((a.axes.map (·.name)).Nodup → AxisAttrsKept a.axes r.axes)) ∧
+    (∀ t, compressNd a mask = .ok (.inr t) → a.ndim ≠ 1 ∧ t.name = ",".intercalate a.dims) := by
+  constructor
+  · intro r h
+    unfold compressNd at h
+    split at h
+    · cases h
+    · split at h
+      · cases h
+      · split at h
+        · rename_i h1
+          cases hc : compressAxis a ((List.range (mask.shape.getD 0 0)).map fun i => mask.get [i]) (.pos 0) with
+          | error e => rw [hc] at h; cases h
+          | ok r' =>
+            rw [hc] at h
+            simp only [Except.map, Except.ok.injEq, Sum.inl.injEq] at h
+            subst h
+            exact ⟨by simpa using h1, compressAxis_axis_attrs a r' _ _ hc⟩
+        · cases h
+  · intro t h
+    unfold compressNd at h
+    split at h
+    · cases h
+    · split at h
+      · cases h
+      · split at h
+        · cases hc : compressAxis a ((List.range (mask.shape.getD 0 0)).map fun i => mask.get [i]) (.pos 0) with
+          | error e => rw [hc] at h; cases h
+          | ok r' => rw [hc] at h; cases h
+        · rename_i h1
+          simp only [Except.ok.injEq, Sum.inr.injEq] at h
+          subst h
+          exact ⟨by simpa using h1, rfl⟩
+
+open DSV in
+/-- `Dataset._unary_op` (`-ds`): a fresh Dataset - Dataset metadata DROPPED, every variable's metadata DROPPED -/
+theorem unaryOpDs_attrs {α : Type} (u : α → α) (ds r : Ds α) (h : unaryOpDs u ds = .ok r) :
+    r.attrs = [] ∧ ∀ kv ∈ r.vars, kv.2.attrs = [] := by
+  have := C16.foldlM_setItem_noattrs (fun kv => .ok (unaryOp u kv.2)) (by intro kv v hv; cases hv; rfl) ds.vars {} r h
+  refine ⟨this.1, fun kv hkv => ?_⟩
+  rcases this.2 kv hkv with h0 | h0
+  · cases h0
+  · exact h0
+
+open DSV in
+/-- `Dataset._rbinary_op` (`3 - ds`): Dataset metadata DROPPED, every variable's metadata DROPPED -/
+theorem rbinaryOpDs_attrs {α : Type} (f : α → α → α) (ds r : Ds α) (lhs : Operand α) (h : rbinaryOpDs f ds lhs = .ok r) :
+    r.attrs = [] ∧ ∀ kv ∈ r.vars, kv.2.attrs = [] := by
+  unfold rbinaryOpDs at h
+  split at h
+  · rename_i c
+    have := C16.foldlM_setItem_noattrs (fun kv => operationNd f kv.2 { shape := [], get := fun _ => c } true)
+      (by intro kv v hv; exact operationNd_attrs f kv.2 v _ true hv) ds.vars {} r h
+    refine ⟨this.1, fun kv hkv => ?_⟩
+    rcases this.2 kv hkv with h0 | h0
+    · cases h0
+    · exact h0
+  · cases h
+
+open DSV in
+/-- `Dataset.take_axis(indices, axis, indexing='position', mode=)`: Dataset and variable metadata kept, the operated
+axis keeps the Dataset axis' metadata -/
+theorem takeAxisIntsDs_attrs {α : Type} (ds r : Ds α) (axis : DimKey) (is : List Int) (mode : TakeMode)
+    (h : takeAxisIntsDs ds axis is mode = .ok r) :
+    r.attrs = ds.attrs ∧ (∀ kv ∈ r.vars, ∃ kv0 ∈ ds.vars, kv.2.attrs = kv0.2.attrs) ∧
+    ((ds.axes.map (·.name)).Nodup → AxisAttrsKept ds.axes r.axes) := by
+  unfold takeAxisIntsDs at h
+  simp only [bind, Except.bind] at h
+  split at h
+  · cases h
+  · split at h
+    · cases h
+    · split at h
+      · cases h
+      · rename_i name _ _ _ ps _
+        have hs := takeAxisPosDs_attrs ds r _ _ h
+        exact ⟨hs.1, hs.2.2.2, takeAxisPosDs_axis_attrs ds r _ _ h⟩
+
 /-! ### non-vacuity: the success hypotheses on concrete arrays that carry array-level and axis-level metadata,
 and the exact metadata of the results where an axis LOSES or CHANGES its metadata -/
 
@@ -878,6 +1048,20 @@ metadata of the axes (by name).  Every entry is a theorem of this file (or the o
 | `DSV.reindexAxisDs`                | kept (Dataset and variables) | `reindexAxisDs_attrs` | operated axis: KEPT (also when new labels are written); all kept by name | same, `reindexAxisDs_axis_attrs` |
 | `DSV.applyAxis` (`Dataset.mean` …) | Dataset metadata DROPPED | `applyAxis_attrs`  |                                                              |                                  |
 | `DSV.takeDs`                       | kept (Dataset and variables) | `takeDs_attrs` |                                                              |                                  |
+| `unaryOp` (`-a`, `abs(a)`)         | DROPPED     | `unaryOp_attrs`, `unaryOp_attrs_counterexample` | same axes                            | `unaryOp_axis_attrs`             |
+| `reduceX` (reductions on concrete data, with refusals) | kept | `reduceX_attrs` | remaining axes are the same axes                          | `reduceX_axis_attrs`             |
+| `sortAxisKey` (`sort_axis(key=)`)  | kept        | `sortAxisKey_attrs`     | all kept                                                     | `sortAxisKey_axis_attrs`         |
+| `takeAxisInts` (`take_axis` by position, `mode=`) | kept | `takeAxisInts_attrs` | all kept                                                   | `takeAxisInts_axis_attrs`        |
+| `compressNd`                       | kept        | `compressNd_attrs`      | rank 1: kept; any other rank: ONE fresh axis of label tuples, input axis metadata DROPPED | `compressNd_axis_attrs` |
+| `DSV.unaryOpDs` (`-ds`)            | DROPPED (Dataset and variables) | `unaryOpDs_attrs` |                                                  |                                  |
+| `DSV.rbinaryOpDs` (`3 - ds`)       | DROPPED (Dataset and variables) | `rbinaryOpDs_attrs` |                                                |                                  |
+| `DSV.takeAxisIntsDs`               | kept (Dataset and variables) | `takeAxisIntsDs_attrs` | all kept by name                                     | `takeAxisIntsDs_attrs`           |
+
+Mirror functions that return an array / Dataset and have NO pair yet (decided by the direct sweep of harness/props/c16.py only):
+`stackDsA`, `concatenateDsA`, `reindexAxisDsM`, `reduceAllDs`, `readFile`, `readMulti`, `DatasetCtor.construct` (a state machine
+over axis identities without a metadata field), `binaryOpDs`, `stackDs`, `concatenateDs`, `reduceDs`, `reindexLikeDs`, `copyDs`,
+`interpAxisDs`, `interpLike`, `interpLikeDs`.  Operations of the sweep without any mirror: broadcast (pointwise) indexing
+`take(..., broadcast=True)`, the `attrs` property setter / deleter, `Axis.__getitem__` with ndarray / boolean keys.
 -/
 
 end DimModel
